@@ -23,7 +23,7 @@ SPEC = {
              "opcode or label spelling); distinct = distinct (recipe, annotation) hashes."),
     "assumptions": ["vlib/tealgrammar.py tokenizer drops exactly what the assembler treats as comments", "label alpha-renaming in order of definition"],
     "min_evaluations": {"quick": 4000, "thorough": 50000},
-    "must_reach": ["streams_equal", "kind_comment_after_exit", "universal_newline_model_compared", "kind_comment_wrap", "kind_comment_alone", "kind_assert_comment", "kind_pragma", "kind_nonce", "kind_subname", "exec_equal", "pairs_with_slot_optimisation"],
+    "must_reach": ["streams_equal", "kind_comment_after_exit", "universal_newline_model_compared", "kind_comment_wrap", "kind_comment_alone", "kind_comment_after_store", "kind_assert_comment", "kind_pragma", "kind_nonce", "kind_subname", "exec_equal", "pairs_with_slot_optimisation"],
     "shard_timeout": {"quick": 2400, "thorough": 14400},
 }
 
@@ -122,7 +122,7 @@ def annotate(rng, recipe, bulk):
     nonce = None
     while budget > 0 and tries < 60:
         tries += 1
-        kind = rng.choice(["comment_wrap", "comment_wrap", "comment_alone", "assert_comment", "pragma", "nonce", "subname", "comment_after_exit"])
+        kind = rng.choice(["comment_wrap", "comment_wrap", "comment_alone", "assert_comment", "pragma", "nonce", "subname", "comment_after_exit", "comment_after_store"])
         t = rtext(rng)
         if kind == "comment_wrap":
             L = rng.choice(lists)
@@ -139,6 +139,17 @@ def annotate(rng, recipe, bulk):
                 continue
             i = rng.choice(cands)
             L.insert(i, ["comment", t, None])
+        elif kind == "comment_after_store":
+            # one or several comment lines between a store and the statement that follows it (often the variable's next load)
+            L = rng.choice(lists)
+            cands = [i for i, st in enumerate(L[:-1]) if st[0] == "store" and L[i + 1][0] in STARTS_WITH_OP]
+            if not cands:
+                continue
+            i = rng.choice(cands)
+            t = rng.choice([t, "one\ntwo", "a\r\nb\nc", "x\u2028y", "first"])
+            L.insert(i + 1, ["comment", t, None])
+            if rng.random() < .4:
+                L.insert(i + 1, ["comment", "stacked", None])
         elif kind == "comment_after_exit":
             # a comment standing directly behind Return/Approve/Reject/Err in the same Seq (an arm of a conditional or a loop body)
             found = []
@@ -354,7 +365,10 @@ def run_shard(shard):
         mode = "sig" if rng.random() < .2 else "app"
         r0 = rng.random()
         try:
-            if r0 < .7 or mode == "sig":
+            if r0 < .2 and mode == "app":
+                from . import c03
+                recipe = c03.opt_family(rng, vgen)  # store/load pairs the slot optimiser rewrites
+            elif r0 < .7 or mode == "sig":
                 recipe = recipes.Gen(rng, version=vgen, mode=mode, min_subs=rng.choice([0, 1])).program()
             else:
                 recipe = c02.mutual_family(rng)
